@@ -111,7 +111,12 @@ def run(rep):
                      acts=["grow_missing", "reap_default", "fix_cause", "reload"], max_steps=5, mode="bfs", need=["DoFixCause"],
                      sample=200 if q else 2000))
     crop.drive(rep, runs, claims=lambda tag: tag.startswith(CLAIMS_PREFIX), variants=variants)
+    # batches grown by a pool of worker processes (the cluster-script path) whose first setting finishes last
+    crop.parallel_grow_cases(rep, 2 if q else 6, farmer=True)
 
 
 def replay(rep, saved):
+    if saved.get("kind") == "parallel_grow":
+        crop.parallel_grow_cases(rep, 2, farmer=True)
+        return
     crop.replay_saved(rep, saved, claims=lambda tag: tag.startswith(CLAIMS_PREFIX))
